@@ -10,6 +10,7 @@
 //	adv <w> <d:nh:c:o;...|->             advertisement of neighbor w is processed (ribUpdate)
 //	advrace <w> <entries>                advertisement accepted, neighbor dies, then ribUpdate runs
 //	dead <w>                             dead-neighbor check removes w
+//	sweep <w1,w2,..>                     ONE dead-neighbor check finds all of them dead
 //	papply <x> <reset> <adds|-> <rems|-> prefix op list of exit router x is applied
 //	fib                                  fibUpdate
 //	    => cmds=<R:name:face:cost|U:name:face,...> rib=<d:nh1:c1:nh2:c2,...> nbr=<w:face,...> pfx=<x:id.id,...>
@@ -182,6 +183,18 @@ func genIds(r *common.Rand, n int, max int) string {
 	return dash(strings.Join(ids, "."))
 }
 
+func shuffledInts(r *common.Rand, n int) []int {
+	p := make([]int, n)
+	for i := range p {
+		p[i] = i
+	}
+	for i := n - 1; i > 0; i-- {
+		j := r.Intn(i + 1)
+		p[i], p[j] = p[j], p[i]
+	}
+	return p
+}
+
 func genFib(g *common.Gen, r *common.Rand) {
 	n := r.Range(2, 6)
 	g.Op("new fib %d", n)
@@ -204,9 +217,17 @@ func genFib(g *common.Gen, r *common.Rand) {
 		case x < 50:
 			g.Op("ping %d %d %d", w, common.Pick(r, faces), r.Intn(2))
 			g.Stat("ping")
-		case x < 58:
+		case x < 55:
 			g.Op("dead %d", w)
 			g.Stat("dead")
+		case x < 58:
+			k := r.Range(2, 3)
+			var ws []string
+			for _, i := range shuffledInts(r, n-1)[:min(k, n-1)] {
+				ws = append(ws, fmt.Sprint(i+1))
+			}
+			g.Op("sweep %s", strings.Join(ws, ","))
+			g.Stat("sweep")
 		case x < 62:
 			g.Op("advrace %d %s", w, genAdv(r, n))
 			g.Stat("advrace")
@@ -456,6 +477,19 @@ func execFib(f []string) string {
 			return "skip"
 		}
 		return dumpFib()
+	case "sweep":
+		var names []enc.Name
+		for _, ws := range strings.Split(f[1], ",") {
+			w, ok := wOf(ws)
+			if !ok {
+				return "skip"
+			}
+			names = append(names, uni.rName[w])
+		}
+		if sim.DeadMany(0, names) == 0 {
+			return "skip"
+		}
+		return dumpFib()
 	case "papply":
 		x := common.Atoi(f[1])
 		if x < 0 || x >= uni.n {
@@ -702,7 +736,7 @@ func exec(op string) string {
 	}
 	if kind == "fib" {
 		switch f[0] {
-		case "ping", "adv", "advrace", "dead", "papply", "fib":
+		case "ping", "adv", "advrace", "dead", "sweep", "papply", "fib":
 			return execFib(f)
 		}
 		return "skip"
